@@ -167,10 +167,20 @@ def main(argv: list[str]) -> int:
         return 1 if still else 0
 
     t0 = time.time()
-    res: PropResult = mod.run(ctx)
-    from props._t1 import maybe_add_t1
+    # the deductive layer (own process pool) runs concurrently with the bounded stand-ins
+    from concurrent.futures import ThreadPoolExecutor
 
-    res = maybe_add_t1(res, args.prop, ctx)
+    from props._t1 import T1_PROPS, add_t1
+
+    with ThreadPoolExecutor(1) as ex:
+        fut = ex.submit(add_t1, PropResult(prop=args.prop, level="exploration"), args.prop, ctx) if args.prop in T1_PROPS else None
+        res: PropResult = mod.run(ctx)
+        if fut is not None and not res.extra.get("t1_included"):
+            t1 = fut.result()
+            level = res.level
+            res.merge(t1)
+            res.level = level
+            res.extra["t1_included"] = True
     wall = time.time() - t0
 
     findings = load_known_findings(args.prop)
